@@ -77,8 +77,9 @@ class DriverUnavailable(Exception):
     pass
 
 
-def driver_batch(lines: list[str], timeout=1800) -> list[str]:
-    """send all request lines to the compiled Lean driver, return one answer line per request"""
+def driver_batch(lines: list[str], timeout=1800, exe: str = "driver") -> list[str]:
+    """send all request lines to a compiled Lean driver (lean_exe `exe`), return one answer line per request"""
+    DRIVER_BIN = os.path.join(LEAN_DIR, ".lake", "build", "bin", exe)
     if not os.path.exists(DRIVER_BIN):
         raise DriverUnavailable(DRIVER_BIN + " missing")
     if not lines:
@@ -95,10 +96,10 @@ def driver_batch(lines: list[str], timeout=1800) -> list[str]:
     return out
 
 
-def driver_json(reqs: list[dict], timeout=1800) -> list[dict]:
-    """JSON-protocol requests (`J <json>` lines)"""
-    lines = ["J " + json.dumps(r, separators=(",", ":")) for r in reqs]
-    out = driver_batch(lines, timeout)
+def driver_json(reqs: list[dict], timeout=1800, exe: str = "driver") -> list[dict]:
+    """JSON-protocol requests (`J <json>` lines); every request has a "fn" field; numbers are strings (see jsonable)"""
+    lines = ["J " + json.dumps(jsonable(r), separators=(",", ":")) for r in reqs]
+    out = driver_batch(lines, timeout, exe)
     res = []
     for o in out:
         if o.startswith("ERR"):
